@@ -4,7 +4,7 @@ from .. import parsefam as P
 from .. import lexfam, gram, batch
 from . import pcommon as pc
 
-HOSTILE = ["\\", "\\\\", "a\"b", "`", "a`b", "'", "''", "a b", "é✓", "\U0001F600", "*/", "//", "%s", "{{.}}", "<<", "\t", "x\\n", "\"\""]
+HOSTILE = ["\\", "\\\\", "a\"b", "`", "a`b", "'", "''", "a b", "é✓", "\U0001F600", "*/", "//", "%s", "{{.}}", "<<", "\t", "x\\n", "\"\"", "x\ufeffy"]
 
 
 def check_terms(ck, what, text, impl_terms, model_terms, stats):
